@@ -514,6 +514,25 @@ Section Front.
     | _ => false
     end.
 
+  (* previous_text_ends_with_cr (since the LF-hack fix, props/C02/LF-hack-fix.patch): the text a new piece of character
+     data will be joined with — the base64 text cached on a binary-flagged element, else the last child when it is a
+     text node — ends with a CR.  Expat delivers "&#13;&#10;" as "\r" then "\n": that LF has its CR already. *)
+  Definition ends_cr (b : bytes) : bool := last b 0 =? 13.
+  Definition prev_ends_cr (spine : list frame) : bool :=
+    match spine with
+    | [] => false                                            (* node == NULL *)
+    | f :: _ =>
+      if is_binary_frame f then
+        match f_kind f with
+        | FElt _ _ (Some content) => ends_cr content
+        | _ => false
+        end
+      else match f_rkids f with
+           | NText t :: _ => ends_cr t
+           | _ => false
+           end
+    end.
+
   Definition on_characters (c : ctx) (ch : bytes) : ctx :=
     if negb (c_error c =? WBXML_OK) then c
     else if 0 <? c_skip_lvl c then c
@@ -524,7 +543,8 @@ Section Front.
         let '(ch1, want_cdata) :=
             match dt with
             | DT_DIRECTORY_VCARD | DT_VCALENDAR | DT_VCARD | DT_VOBJECT =>
-              ((match ch with [10] => [13; 10] | _ => ch end), true)       (* a lone LF becomes CR LF *)
+              ((match ch with [10] => if prev_ends_cr (c_spine c) then ch else [13; 10] | _ => ch end), true)
+                                                                          (* a lone LF becomes CR LF unless the CR is there *)
             | DT_CLEAR => (ch, true)
             | _ => (ch, false)
             end in
